@@ -465,10 +465,51 @@ extern "C" int LLVMFuzzerTestOneInput(const uint8_t* data, size_t size){
     return hc::fuzzOne(c, [&](const FmmCase& x){ return propSingle(x, prop); });
 }
 #else
+// bounded-exhaustive part: every occupancy pattern of a small tree x block sizes {1,2,3,5,nLeaves} x both grouping modes
+// (one particle per occupied leaf, at the leaf centre of the unit box). --part k --parts n splits the pattern range.
+int runExhaustive(const hc::Args& a, const std::string& prop){
+    hc::stats().outPath = a.out;
+    const int H = int(a.getInt("exh", Dim == 1 ? 5 : (Dim == 2 ? 3 : 2)));
+    const long n = 1L << (H - 1);
+    long nbLeaves = 1; for(int d = 0 ; d < Dim ; ++d) nbLeaves *= n;
+    if(nbLeaves > 20){ std::cout << "exhaustive mode needs <= 20 leaves" << std::endl; return 2; }
+    const long nbPatterns = (1L << nbLeaves) - 1;
+    const long part = a.getInt("part", 0), parts = std::max(1L, a.getInt("parts", 1));
+    long done = 0;
+    for(long pat = 1 + part ; pat <= nbPatterns ; pat += parts){
+        FmmCase c; c.dim = Dim; c.height = H; c.real = RealCode; c.nextra = 0; c.salt = 7;
+        for(long leaf = 0 ; leaf < nbLeaves ; ++leaf) if(pat & (1L << leaf)){
+            Pos4 p{{0,0,0,0}}; long r = leaf;
+            for(int d = 0 ; d < Dim ; ++d){ p[size_t(d)] = (double(r % n) + 0.5) / double(n); r /= n; }
+            c.pos.push_back(p);
+        }
+        const long nOcc = long(c.pos.size());
+        const long sizes[5] = {1, 2, 3, 5, nOcc};
+        for(long bs : sizes) for(int mode = 0 ; mode < 2 ; ++mode){
+            if(bs > nOcc && bs != 1) continue;
+            c.blockSize = bs; c.oneGroupPerParent = mode;
+            if(!a.cur.empty() && done % 256 == 0) vj::writeFile(a.cur, c.toJson());
+            hc::stats().evaluations += 1; done += 1;
+            const std::string r = propSingle(c, prop);
+            if(!r.empty() && r.compare(0, 4, "SKIP") != 0){
+                if(!a.fail.empty()) vj::writeFile(a.fail, c.toJson());
+                hc::stats().dump();
+                std::cout << "FAIL " << r << std::endl; return (r.compare(0, 11, "MODEL-ERROR") == 0) ? 3 : 1;
+            }
+        }
+    }
+    hc::stats().cls("exhaustive-trees", done);
+    hc::stats().cls("exhaustive-height", H);
+    hc::stats().dump();
+    std::cout << "HELD exhaustive trees=" << done << std::endl;
+    return 0;
+}
+
 int main(int argc, char** argv){
     hc::Args a = hc::parseArgs(argc, argv);
     if(a.prop.empty()){ std::cerr << "usage: --prop Cxx [--seed S --cases N --size M --out stats.json --fail case.json --cur cur.json] [--replay case.json]\n"; return 2; }
     const std::string prop = a.prop;
+    if(a.mode == "exhaustive" && a.replay.empty()) return runExhaustive(a, prop);
     return hc::runMain(a, cfgFor(prop, a), [&](const FmmCase& c){ return propSingle(c, prop); });
 }
 #endif
